@@ -40,6 +40,7 @@ func prop(id, level, expl string, notCovered []string, rs ...*core.Rule) *core.P
 var props = []*core.Property{
 	prop("C03", "other", "structural necessary conditions of the first-match deepest-path walk", nil, ruleTreeWF, ruleWalkDiscipline, ruleCloneChain, ruleSnapshot),
 	prop("C02", "other", "x", nil, ruleNames, ruleTreeWF, ruleParams, ruleCloneChain, ruleErrorReturns),
+	prop("C04", "other", "x", nil, ruleLimitSlice, ruleInputImmutable, rulePools, rulePkgState, ruleSnapshot, ruleReader),
 	prop("C05", "other", "x", nil, ruleReader, ruleErrorReturns, ruleLimitSlice, ruleSnapshot),
 	prop("C14", "other", "x", nil, ruleExtend, ruleLookup, ruleWalkDiscipline, ruleFreshResults),
 	prop("C15", "other", "x", nil, ruleAliases, ruleNames, ruleEquality, ruleLookup),
@@ -48,7 +49,7 @@ var props = []*core.Property{
 	prop("C10", "other", "x", nil, ruleJSONNodes, ruleStackBalance, ruleQueryTables, ruleQueryDiscipline, ruleTokenGate, ruleParseResults),
 	prop("C08", "other", "x", nil, ruleTruncTable, ruleFailProp, ruleParseResults, ruleCap, ruleJSONNodes, ruleTokenGate, ruleSnapshot),
 	prop("C09", "other", "x", nil, ruleFailProp, ruleTruncTable, ruleParseResults, ruleSeparators, ruleTokenGate),
-	prop("C13", "other", "x", nil, ruleInspectedGuard, ruleSnapshot),
+	prop("C13", "other", "x", nil, ruleDropLastLine, ruleInspectedGuard, ruleLineThresholds, ruleTruncTable, ruleSnapshot),
 	prop("C12", "other", "x", nil, ruleSnifferMap, ruleDecoderTypestate, ruleLowerCase, ruleHTMLOrder),
 	prop("C06", "other", "x", nil, ruleAtomics, ruleLockset, ruleWriteOnce, ruleSharedAppend, rulePkgState, ruleSnapshot, ruleFreshResults),
 	prop("C18", "other", "x", nil, ruleTar),
